@@ -27,7 +27,7 @@ BOUNDS = {'quick': 'k<=1 whole-file + single-line kinds on sources <= 120 lines'
 ASSUMPTIONS = ['tests/<t>/<t>.ori is the correct image of tests/<t>/<t>.asm']
 
 KINDS = ['opcase-up', 'opcase-low', 'symcase', 'ws-tab', 'ws-blanks', 'ws-inner-tab', 'ws-inner-tabblank', 'comment', 'blankline', 'commentline', 'crlf', 'colon-add', 'colon-del', 'include', 'macro']
-LINE_KINDS = ['opcase-up', 'opcase-low', 'ws-tab', 'ws-inner-tab', 'ws-inner-tabblank', 'comment', 'blankline', 'commentline', 'colon-add', 'colon-del']
+LINE_KINDS = ['opcase-up', 'opcase-low', 'symcase', 'ws-tab', 'ws-inner-tab', 'ws-inner-tabblank', 'comment', 'blankline', 'commentline', 'colon-add', 'colon-del']
 
 GEN = {
     'g_rept_refs': '\tcpu z80\nstart:\tld a,1\ntab:\tdb 1,2,3\n\trept 2\n\tdw tab,start\n\tendm\n\tirp x,1,2\n\tdb x\n\tdw start\n\tendm\nm\tmacro\n\tdw tab\n\tjp start\n\tendm\n\tm\n',
@@ -36,6 +36,8 @@ GEN = {
     'g_cond': '\tcpu 6502\nflag\tequ 1\n\tif flag\nlab:\tlda #1\n\telse\nlab:\tlda #2\n\tendif\n\tjmp lab\n',
     # constants ending in an escaped backslash or holding escaped quotes, in front of further operands / a comment
     'g_escapes': '\tcpu z80\n\tdb "C:\\\\"\n\tdb \'\\\\\'\n\tdb "a\\"b"\n\tdb "x\\\\",1,"\\\\"\n\tdb "semi;colon",2\n\tdb \';\'\n\tld a,\'\\\\\'\n',
+    # structure elements that refer to sibling elements (bit definitions): the reference is a symbol like any other
+    'g_structbits': '\tcpu h8/300\nflags\tstruct\nbyte1\tds.b 1\nbyte2\tds.b 1\nrdy\tbit 0,byte1\nerr\tbit 3,byte2\nflags\tendstruct\n\torg $ff10\ninst\tflags\n\torg $100\n\tbset inst_rdy\n\tbclr inst_err\n\tmov.b @inst_byte2,r0l\n',
     # every repetition construct nested in a body (the macro wrapper nests them once more)
     'g_repeats': '\tcpu z80\n\tdb 1\n\tirpn 2,x,y,1,2,3,4\n\tdb x,y\n\tendm\n\tirpc c,"ab"\n\tdb \'c\'\n\tendm\n\trept 2\n\tirpn 1,q,5,6\n\tdb q\n\tendm\n\tendm\n\tirp z,7,8\n\tirpc d,"12"\n\tdb z,d\n\tendm\n\tendm\n\tdb 9\n',
 }
@@ -236,10 +238,12 @@ def subspaces(tier):
             lines = src_text(t).replace('\r\n', '\n').split('\n')
             if len(lines) > maxl:
                 continue
+            nou = ('-U' not in corpus.flags(t)) if t not in GEN else True
+            defs = defined_symbols(src_text(t)) if nou else set()
             for i, l in enumerate(lines):
                 for kind in LINE_KINDS:
                     pc = i > 0 and cont(lines[i - 1])
-                    if rw_line(l, kind, pc, {'dsp56'} if t.startswith('t_56') else set()) != [l]:
+                    if rw_line(l, kind, pc, set(defs) | ({'dsp56'} if t.startswith('t_56') else set())) != [l]:
                         yield {'t': t, 'kinds': [kind], 'line': i}
     subs.append(('single-line(sources<=%d lines)' % maxl, single()))
     return subs
